@@ -4,11 +4,11 @@ package symgo
 // re-execution, path condition kept in one incremental solver process.
 
 import (
-	"sync/atomic"
 	"fmt"
 	"os"
 	"sort"
 	"strings"
+	"sync/atomic"
 	"time"
 
 	"verif/engine/smt"
@@ -17,12 +17,12 @@ import (
 type abortKind int
 
 const (
-	abortInfeasible  abortKind = iota // assumption failed / no feasible alternative: path silently ends
-	abortUnsupported                  // engine cannot interpret something: inconclusive
-	abortUnwind                       // unwinding bound exceeded: inconclusive
-	abortBudget                       // instruction budget exceeded: inconclusive
-	abortAfterFinding                 // a violation makes continuing meaningless
-	abortDeadlock                     // sequential mode: blocking operation can never proceed
+	abortInfeasible   abortKind = iota // assumption failed / no feasible alternative: path silently ends
+	abortUnsupported                   // engine cannot interpret something: inconclusive
+	abortUnwind                        // unwinding bound exceeded: inconclusive
+	abortBudget                        // instruction budget exceeded: inconclusive
+	abortAfterFinding                  // a violation makes continuing meaningless
+	abortDeadlock                      // sequential mode: blocking operation can never proceed
 )
 
 type abortPath struct {
